@@ -7,10 +7,18 @@ VERIF = os.path.dirname(os.path.dirname(os.path.abspath(__file__)))
 
 # id -> (technique, level text, level note, design ref)
 CLAIMS = {
-    "C01": ("Coq proof (finite sweep lifted by forallb_forall) over the kernel translated from source; model/implementation correspondence in Coq vm_compute; exhaustive implementation oracle",
-            "Theorem C01_timezone about parse_timezone as translated from /repo on every run: every whole-minute offset in (-24h,24h) round-trips (proved, closed under the global context).",
-            "Trusted: Coq kernel + vm_compute, tools/py2gallina.py, TzName.tzname model of CPython (compared exhaustively each run).",
+    "C01": ("Coq proof by nested induction on (value, type) over a hand-written model of the generated (un)packers, composed from C02/C03 theorems; timezone codec proved over the kernel translated from source (finite sweep lifted by forallb_forall); model/implementation correspondence by vm_compute; round-trip oracle on the implementation",
+            "Theorems C01_roundtrip / C01_roundtrip_codec: for every class table, lossless type (any depth, recursive dataclasses, collections, Optional, leaves, enums, bytes, Any) and conforming value, decoding the generated packer's output returns the value with the same concrete classes; C01_timezone about parse_timezone as translated from /repo on every run. All closed under the global context.",
+            "Trusted: Coq kernel + vm_compute; TyModel.v is hand-written and tied to /repo only by the per-run vm_compute correspondence (BasicEncoder/BasicDecoder on generated schemas, values and foreign inputs); stdlib render/parse pairs are oracle functions whose law is a hypothesis (atoms_ok); tools/py2gallina.py for K1; unions, NamedTuple/TypedDict/abstract collections and leaf-typed mapping keys are decided by the implementation oracle only.",
             "4 C01"),
+    "C02": ("Coq proof by nested induction (pk (cp t) = ref_enc t on conforming values) over the hand-written generator model; vm_compute correspondence with BasicEncoder; independent reference-interpreter oracle incl. format dialects",
+            "Theorems C02_pack_ref / C02_field_packer: the generated packer with all its optimisations (copy vs comprehension, elided None tests, identity packers) equals the README-level reference encoder for every conforming value of every type of the grammar, at any depth. Closed under the global context.",
+            "Trusted: Coq kernel; TyModel.v (model of pack.py decisions) tied by per-run vm_compute correspondence; stdlib renderings are oracle tables; format dialects (orjson/msgpack/TOML native types, TOML null dropping), NamedTuple/TypedDict/ChainMap/Counter/unions/literals are decided by the independent Python reference interpreter only.",
+            "4 C02"),
+    "C03": ("Coq proof by nested induction (uk (cu t) = ref_dec t on EVERY input) over the hand-written generator model; vm_compute correspondence with BasicDecoder on encoder output and foreign inputs; independent reference-decoder + exact-class oracle",
+            "Theorems C03_unpack_ref / C03_field_unpacker: for every input (arbitrary JSON-like data), class table and type of the grammar the generated unpacker returns exactly what the reference decoder returns and fails exactly when the reference is undefined (str iterating characters, dict iterating keys, surplus tuple items and unknown keys ignored, constant positions). Closed under the global context.",
+            "Trusted: Coq kernel; TyModel.v (model of unpack.py decisions) tied by per-run vm_compute correspondence; stdlib constructors are oracle tables; conformance of results to the annotation (exact classes) and NamedTuple/TypedDict/abstract collections are decided by the implementation oracle only.",
+            "4 C03"),
 }
 
 ALL = [f"C{i:02d}" for i in range(1, 21)]
